@@ -898,6 +898,19 @@ fn check_credential_claims(c: &CredentialClaims, obs: &mut Obs) -> CheckResult {
           );
         }
       }
+      // an expiry signed only inside `vc` (no exp): accepted => not dropped silently
+      if let (None, Some(d)) = (c.exp, c.vc_expiration) {
+        if in_range(d) {
+          vensure!(
+            obs,
+            got.get("expirationDate") == Some(&json!(rfc3339(d))),
+            "vc-expiration-without-exp-accepted-and-dropped",
+            "claims {claims} were accepted but the returned credential has expirationDate {:?} instead of the signed vc.expirationDate {}",
+            got.get("expirationDate"),
+            rfc3339(d)
+          );
+        }
+      }
       if !c.sub {
         let signed = match c.vc_subject_id {
           Dup::Absent => None,
@@ -1176,7 +1189,7 @@ pub fn check(case: &Case, obs: &mut Obs) -> CheckResult {
 // ---------------------------------------------------------------------------------------------
 
 fn credential_case_strategy() -> impl Strategy<Value = Case> {
-  (0u8..2, credential_strategy(ISSUER_IDS), custom_claims_strategy()).prop_map(|(family, credential, custom)| {
+  (0u8..2, credential_strategy(ISSUER_IDS), custom_claims_strategy_with(CREDENTIAL_FREE_CLAIM_NAMES)).prop_map(|(family, credential, custom)| {
     Case::Credential {
       family,
       credential,
@@ -1195,7 +1208,7 @@ fn presentation_case_strategy() -> impl Strategy<Value = Case> {
       Just(AUD.to_string()),
       Just("did:example:verifier".to_string())
     ]),
-    custom_claims_strategy(),
+    custom_claims_strategy_with(PRESENTATION_FREE_CLAIM_NAMES),
   )
     .prop_map(|(family, presentation, exp, nbf, aud, custom)| Case::Presentation {
       family,
@@ -1237,9 +1250,9 @@ fn credential_member_matrix() -> impl Iterator<Item = Case> {
     for vc_issuer in issuers {
       for nbf in [None, Some(T1)] {
         for iat in [None, Some(T1), Some(T2)] {
-          for vc_issuance in [None, Some(T1), Some(T2), Some(E1)] {
+          for vc_issuance in [None, Some(T1), Some(T2), Some(E1), Some(T1 - 1), Some(T1 + 1)] {
             for exp in [None, Some(E1)] {
-              for vc_expiration in [None, Some(E1), Some(E2)] {
+              for vc_expiration in [None, Some(E1), Some(E2), Some(E1 - 1), Some(E1 + 1), Some(T1)] {
                 for jti in [true, false] {
                   for vc_id in DUPS {
                     for sub in [true, false] {
